@@ -66,7 +66,13 @@ def real_placeholder():
     # ... and what comes back for a sentence longer than max_length
     res2 = P.run([[Token(word='a'), Token(word='b')]], [ScoringResult(tag, dep)], [synth.SCat(0), synth.SCat(1)], [synth.SCat(0)],
                  synth.BinaryFun(g), synth.UnaryFun(g), processes=1, max_length=1)
-    return res[0], res2[0]
+    # ... and for a sentence whose step budget runs out with items still on the agenda
+    g3, _ = synth.random_grammar(__import__('random').Random(5), 4, 2, density=1.0, max_results=1, unary_p=0.0)
+    tag3 = np.zeros((4, 2), dtype=np.float32)
+    dep3 = np.zeros((4, 5), dtype=np.float32)
+    res3 = P.run([[Token(word=w) for w in 'abcd']], [ScoringResult(tag3, dep3)], [synth.SCat(0), synth.SCat(1)], [synth.SCat(3)],
+                 synth.BinaryFun(g3), synth.UnaryFun(g3), processes=1, max_step=3)
+    return res[0], res2[0], res3[0]
 
 
 def run(spec, R):
@@ -80,7 +86,7 @@ def run(spec, R):
     if not formats or len(formats) < 5:
         raise Inconclusive(f'could not read the CLI format list for {lang} from depccg/argparse.py')
     R.extra[f'cli_formats_{lang}'] = formats
-    ph, ph_long = real_placeholder()
+    ph, ph_long, ph_budget = real_placeholder()
     if not (len(ph) == 1 and ph[0].tree.is_leaf):
         raise Inconclusive('the search did not return a placeholder for an unparseable sentence')
     R.sample({'placeholder': [str(ph[0].tree.cat), dict(ph[0].tree.token), ph[0].score]})
@@ -98,7 +104,7 @@ def run(spec, R):
         for _ in range(rng.randint(1, 3)):
             r = rng.random()
             if r < 0.35:
-                sents.append(copy.deepcopy(ph if rng.random() < 0.6 else ph_long))
+                sents.append(copy.deepcopy(rng.choice((ph, ph, ph_long, ph_budget))))
                 kinds.append('placeholder')
             else:
                 want = labels[(i + len(sents)) % len(labels)] if r < 0.8 else None
